@@ -86,8 +86,18 @@ struct Progress {
     std::atomic<int> active;
     std::atomic<int> len;
     uint16_t hist[4096];
-    char phase[32];
+    char phase[160];
 };
+
+// the exploring child publishes finer-grained phases (e.g. which read / which fault index) for crash attribution
+inline Progress *g_progress = nullptr;
+inline void note_phase(const char *what)
+{
+    if (!g_progress) return;
+    strncpy(g_progress->phase, what, sizeof g_progress->phase - 1);
+    g_progress->phase[sizeof g_progress->phase - 1] = 0;
+    g_progress->tick.fetch_add(1);
+}
 
 template <class Sys>
 inline std::string describe_hist(Sys &sys, const Hist &h)
@@ -112,6 +122,7 @@ template <class Sys>
 inline void explore(Sys &sys, const Limits &lim, Stats &st, std::map<std::string, ViolationRec> &viol, Progress *pg,
                     const std::set<std::string> &skip, double t_start)
 {
+    g_progress = pg;
     std::unordered_set<std::string> seen;
     struct Node {
         Hist h;
@@ -146,7 +157,8 @@ inline void explore(Sys &sys, const Limits &lim, Stats &st, std::map<std::string
         Fails f;
         std::string k0 = sys.key();
         seen.insert(k0);
-        sys.on_new_state(f);
+        publish(Hist(), "reads");
+        if (skip.empty() || !skip.count("R:")) sys.on_new_state(f);
         ++st.new_state_checks;
         note(f, Hist());
         frontier.push_back(Node{Hist(), k0});
@@ -203,6 +215,10 @@ inline void explore(Sys &sys, const Limits &lim, Stats &st, std::map<std::string
                 st.max_depth_reached = std::max<unsigned>(st.max_depth_reached, (unsigned)h2.size());
                 Fails g;
                 publish(h2, "reads");
+                if (!skip.empty() && skip.count("R:" + hist_str(h2))) {
+                    ++st.pruned_after_violation;  // the per-state battery crashed here in an earlier attempt
+                    continue;
+                }
                 sys.on_new_state(g);
                 ++st.new_state_checks;
                 if (!g.empty()) {
@@ -592,6 +608,10 @@ inline int main_driver(int argc, char **argv, const char *prop, std::function<vo
         ViolationRec r;
         r.hist = h;
         std::string opn = h.empty() ? std::string("(init)") : jobs[k].describe(Hist(1, h.back()));
+        std::string phase = pg[k].phase;
+        bool in_reads = phase.compare(0, 5, "reads") == 0;
+        if (in_reads && phase.size() > 5) opn = phase.substr(phase[5] == ':' ? 6 : 5);  // the system named the call in progress
+        else if (in_reads) opn = "per-state battery after " + opn;
         bool hung = js[k].hung;
         js[k].hung = false;
         if (hung) r.sig = strf("hang:during:%s", opn.c_str());
@@ -603,7 +623,7 @@ inline int main_driver(int argc, char **argv, const char *prop, std::function<vo
                         pg[k].phase, jobs[k].describe(h).c_str());
         if (js[k].crash_viol.count(r.sig)) js[k].crash_viol[r.sig].count++;
         else js[k].crash_viol[r.sig] = r;
-        js[k].skip.insert(hist_str(h));
+        js[k].skip.insert((in_reads ? "R:" : "") + hist_str(h));
         js[k].crashes++;
         if (js[k].crashes >= 12) {
             js[k].done = true;
